@@ -193,9 +193,8 @@ class Node(object):
     def add_namespace(self, prefix: str, namespace: str, nsmap_id: int = None):
         if nsmap_id is None:
             nsmap_id = id(self.nsmap)
-        if prefix in self.nsmap:
-            self.nsmap[prefix] = namespace
-        else:
+        if prefix not in self.nsmap or self.nsmap[prefix] != namespace:
+            # The map may be shared with the parent and siblings: never write to it in place
             self.nsmap = copy.deepcopy(self.nsmap)
             self.nsmap[prefix] = namespace
 
